@@ -336,6 +336,25 @@ def run(chk, prog, tier):
                 ctext = resolve(fn, kids(m)[0])
                 ok = any("counting" in (x or "") for x in t) and not any("counting" in (x or "") for x in e) and "count" in ctext
                 chk.require(ok, "SRC", "SRC/select@%s" % loc_str(m), loc_str(m), "the counting variant is chosen exactly when -b was given", ctext)
+    # ---- LINEREAD: stdin is cut at line ends only: the text handed to the string entry points comes from a reader that returns
+    # a whole line however long it is (getline / getdelim), not from a bounded read that splits long lines
+    nread = 0
+    for fn, c in asm_calls:
+        if "file" in callee_name(c):
+            continue
+        txt = strip(call_args(c)[1], casts=True)
+        src = ref_name(txt)
+        readers = []
+        for m in walk(prog.body(tf[fn])):
+            if m.get("kind") == "CallExpr" and callee_name(m) in ("getline", "getdelim", "fgets", "fread", "read", "gets", "fscanf", "scanf"):
+                if any(src and (ref_name(strip(a, casts=True)) == src or
+                                (strip(a, casts=True).get("kind") == "UnaryOperator" and ref_name(strip(kids(strip(a, casts=True))[0], casts=True)) == src))
+                       for a in call_args(m)):
+                    readers.append(callee_name(m))
+        nread += 1
+        chk.require(bool(readers) and set(readers) <= {"getline", "getdelim"}, "SRC", "SRC/whole-lines/%s" % callee_name(c), loc_str(c),
+                    "the text given to %s is read with getline (one whole line per call, however long)" % callee_name(c),
+                    "read with %s" % (sorted(set(readers)) or "an unidentified reader"))
     # ---- COUNTSUM: a per-line count is added to the total only after the counting call of that same line ------------
     from valib.flow import Flow
 
